@@ -38,6 +38,12 @@ def run(ck):
             hp = wd / ("f%d.h" % n)
             hp.write_text(h.text())
             hdrs.append(hp)
+        # a database several times the size of a stream buffer, most of it string bodies (comments): the write(2) calls then fall inside strings
+        big = wd / "big.h"
+        words = ["alpha", "beta", "gamma", "delta", "buffer", "stream", "flush", "quota", "device", "sector"]
+        big.write_text("__begin_publish\n" + "".join("/** %s */\nint documented_%d(int a, double b = %d.5);\n" % (" ".join(rng.choice(words) for _ in range(rng.randrange(60, 140))), i, i)
+                                                     for i in range(60)) + "__end_publish\n")
+        hdrs.append(big)
         silent = {"interrogate": [], "module": []}
         fired_total = 0
 
